@@ -214,6 +214,7 @@ static struct KSI_NetEndpoint_st g_ep_aggr, g_ep_ext, g_ep_pub;
 static _Bool g_had_id;               /* the request came with a request id */
 static unsigned g_send_calls; static _Bool g_send_ok;
 
+static void after_prepare_ok(KSI_RequestHandle *h);     /* transport specific continuation (file: perform) */
 /* outcome of a prepare call, common to the three transports.  `extra` = blocks the transport context consists of. */
 static void check_prepare(int res, KSI_RequestHandle *h, struct oom3_req *r, void *reqObj, long live0, size_t cnt0, int extra, void (*reqFree)(void *)) {
 	long idnew = (!g_had_id && r->requestId != NULL) ? 1 : 0;     /* a request id created by the call stays with the request */
@@ -244,9 +245,10 @@ static void check_prepare(int res, KSI_RequestHandle *h, struct oom3_req *r, voi
 	__CPROVER_assert(h->client == &g_cl && h->readResponse != NULL && h->response == NULL && !h->completed, "prepare ok: reader and client recorded, no response yet");
 	__CPROVER_assert(g_live == live0 + idnew + 2 + extra, "prepare ok: exactly handle + request copy + transport context survive (serialised octets and PDU released)");
 	__CPROVER_assert(IMPLIES(idnew, r->requestId->value == cnt0 + 1), "prepare ok: a fresh request id is the next request count");
+	after_prepare_ok(h);
 	KSI_RequestHandle_free(h);
 	__CPROVER_assert(r->ref == 1 && g_req_released == 0, "handle free: the request reference is given back, the caller's reference stays");
-	__CPROVER_assert(g_live == live0 + idnew, "handle free: handle, request copy and transport context released exactly once");
+	__CPROVER_assert(g_live == live0 + idnew, "handle free: handle, request copy, response and transport context released exactly once");
 }
 static struct oom3_req *mk_req(size_t n) {
 	struct oom3_req *r = oom3_block(n);
@@ -270,6 +272,7 @@ static char g_url_aggr[3] = "ua", g_url_ext[3] = "ue", g_url_pub[3] = "up";
 static HttpClient_Endpoint g_he_aggr, g_he_ext, g_he_pub;
 static struct KSI_HttpClient_st g_http;
 static int stub_http_read(KSI_RequestHandle *h) { return KSI_NETWORK_ERROR; }
+static void after_prepare_ok(KSI_RequestHandle *h) { }
 /* transport call-back, modelled on net_http_curl.c sendRequest: allocates its context (may fail), may fail afterwards
  * (curl_easy_init) releasing what it allocated, on success records reader + client and hands the context to the handle */
 static int stub_http_send(KSI_NetworkClient *client, KSI_RequestHandle *handle, char *url) {
@@ -334,6 +337,7 @@ void harness(void) {
 static char g_host[3] = "h1";
 static TcpClient_Endpoint g_te_aggr, g_te_ext;
 static struct KSI_TcpClient_st g_tcp;
+static void after_prepare_ok(KSI_RequestHandle *h) { }
 void harness(void) {
 	KSI_RequestHandle *h = &g_sentinel; long live0; int res; size_t cnt0; _Bool conf = nondet_bool();
 	mk_client(&g_tcp);
@@ -390,10 +394,9 @@ static char g_path[3] = "pa";
 static FsClient_Endpoint g_fe_aggr, g_fe_ext;
 static struct KSI_FsClient_st g_fs;
 static FILE g_file;
-static void file_after(int res, KSI_RequestHandle *h, long live0) {
+static void after_prepare_ok(KSI_RequestHandle *h) {
 	long live1; int r2;
-	if (res != KSI_OK) return;
-	__CPROVER_assert(h->implCtx == (WHICH == 0 ? &g_fe_aggr : &g_fe_ext) && h->implCtx_free == NULL, "file prepare ok: the handle borrows the endpoint (no destructor)");
+	__CPROVER_assert(h->implCtx == (WHICH == 0 ? (void *)&g_fe_aggr : (void *)&g_fe_ext) && h->implCtx_free == NULL, "file prepare ok: the handle borrows the endpoint (no destructor)");
 	/* perform: the real readResponse of net_file.c (64 KiB scratch buffer + private copy of the element) */
 	g_alloc_failed = 0; live1 = g_live;
 	r2 = KSI_RequestHandle_perform(h);
@@ -425,18 +428,48 @@ void harness(void) {
 	g_alloc_failed = 0; live0 = g_live; cnt0 = prov.requestCount;
 	res = KSI_NetworkClient_sendSignRequest(&g_cl, req, &h);
 	__CPROVER_assert(IMPLIES(!conf, res == KSI_AGGREGATOR_NOT_CONFIGURED && g_live == live0 && g_ser_calls == 0), "no path configured => refused before anything is made");
-	file_after(res, h, live0);
-	check_prepare(res, h, &req->r, req, live0 + (res == KSI_OK && h->response != NULL ? 1 : 0), cnt0, 0, (void (*)(void *))KSI_AggregationReq_free);
+	check_prepare(res, h, &req->r, req, live0, cnt0, 0, (void (*)(void *))KSI_AggregationReq_free);
 	KSI_AggregationReq_free(req); }
 #else
 	{ KSI_ExtendReq *req = (KSI_ExtendReq *)mk_req(sizeof(KSI_ExtendReq));
 	g_alloc_failed = 0; live0 = g_live; cnt0 = prov.requestCount;
 	res = KSI_NetworkClient_sendExtendRequest(&g_cl, req, &h);
 	__CPROVER_assert(IMPLIES(!conf, res == KSI_AGGREGATOR_NOT_CONFIGURED && g_live == live0 && g_ser_calls == 0), "no path configured => refused before anything is made");
-	file_after(res, h, live0);
-	check_prepare(res, h, &req->r, req, live0 + (res == KSI_OK && h->response != NULL ? 1 : 0), cnt0, 0, (void (*)(void *))KSI_ExtendReq_free);
+	check_prepare(res, h, &req->r, req, live0, cnt0, 0, (void (*)(void *))KSI_ExtendReq_free);
 	KSI_ExtendReq_free(req); }
 #endif
 	__CPROVER_assert(g_req_released == 1, "the caller's last reference destroys the request");
+}
+#endif
+
+#ifdef H_client_new
+/* KSI_AbstractHttpClient_new (net_http.c) over the real KSI_AbstractNetworkClient_new / KSI_AbstractNetEndpoint_new /
+ * KSI_NetEndpoint_setImplContext / setStringParam / KSI_NetworkClient_free / KSI_NetEndpoint_free (net.c): 9 allocations. */
+#include "net_http.c"
+static struct KSI_NetworkClient_st g_csentinel;
+void harness(void) {
+	KSI_NetworkClient *c = &g_csentinel; long live0; int res;
+	g_alloc_failed = 0; live0 = g_live;
+	res = KSI_AbstractHttpClient_new(&g_ctx, &c);
+	REACH("client new returns");
+	__CPROVER_assert(res == KSI_OK || (res == KSI_OUT_OF_MEMORY && g_alloc_failed > 0), "http client new: OK, or out-of-memory with a failed allocation");
+	__CPROVER_assert(IMPLIES(g_alloc_failed == 0, res == KSI_OK), "http client new: succeeds when nothing fails");
+	if (res != KSI_OK) {
+		__CPROVER_assert(c == &g_csentinel, "http client new failed: receiver untouched");
+		__CPROVER_assert(g_live == live0, "http client new failed: nothing the call allocated survives");
+		if (g_alloc_failed == 1) REACH("http client new: one allocation failed");
+		return;
+	}
+	REACH("http client new ok");
+	__CPROVER_assert(g_alloc_failed == 0, "http client new ok: no failed allocation was ignored (agent name and MIME type are part of every request)");
+	{ KSI_HttpClient *h = c->impl;
+	__CPROVER_assert(c != &g_csentinel && c != NULL && h != NULL && c->implFree == (void (*)(void *))httpClient_free && h->agentName != NULL && h->mimeType != NULL && h->sendRequest == NULL && h->implCtx_free == NULL,
+			"http client new ok: implementation with agent name and MIME type, no transport yet");
+	__CPROVER_assert(c->aggregator != NULL && c->extender != NULL && c->publicationsFile != NULL && c->aggregator->implCtx != NULL && c->extender->implCtx != NULL && c->publicationsFile->implCtx != NULL
+			&& ((HttpClient_Endpoint *)c->aggregator->implCtx)->url == NULL && c->aggregator->ksi_user == NULL && c->sendSignRequest == prepareAggregationRequest && c->sendExtendRequest == prepareExtendRequest && c->sendPublicationRequest == preparePublicationsFileRequest,
+			"http client new ok: three endpoints with empty HTTP endpoint contexts, the three senders installed"); }
+	__CPROVER_assert(g_live == live0 + 10, "http client new ok: client, implementation, 2 strings, 3 endpoints, 3 endpoint contexts");
+	KSI_NetworkClient_free(c);
+	__CPROVER_assert(g_live == live0, "client free: every block released exactly once");
 }
 #endif
